@@ -12,6 +12,16 @@ import importlib
 
 HOSTS: dict = {}
 PLANTERS: list = []
+def scenario(g, scenarios):
+    """Stratified top-level choice.  C05 runs a planter that declares `fn.strata = len(scenarios)` once per stratum k (its own
+    Hypothesis run, g.cfg["stratum"] = k) and the planter takes scenarios[k]; without a stratum (the planter used inside the random
+    models of C03/C04/C09/C14) it returns None and the planter draws as before.  Reason: Hypothesis' draws clump at budgets of a few
+    hundred hosts (observed: 2 hosts instead of the expected 14 in one near-miss class at one seed), and a class that is reached by luck
+    is not covered."""
+    k = g.cfg.get("stratum")
+    if k is None:
+        return None
+    return scenarios[k % len(scenarios)]
 
 
 def register(*rule_names):
